@@ -466,6 +466,62 @@ SEQS = [[((1e-2,), 0.0), ((1e-2, 1e-4), 1e-12), ((0.0,), 1e-2)],
 PRIORITY = ["crash", "error", "weights", "flag", "flag-keep", "eps0", "gf-bound", "avg-bound", "susc-bound", "chi-bound", "model"]
 
 
+def distributed_slice(chk, quick):
+    """Truncation under MPI (harness h_c06 under mpiexec): truncateBlocks is called on every rank -- with its default
+    arguments (`truncv`: verbose report) and with verbose = false (`trunc`) --, then G, a directly computed two-particle Green's
+    function and a container computation are distributed over P ranks.  Every rank must end with the values of the
+    single-rank run of the SAME truncated model (which the main part compares with the untruncated one and the bounds):
+    a rank that truncates differently builds other part lists and the distributed job indices no longer mean the same parts."""
+    import C06
+    h = pv.build_harness("h_c06")
+    base = "site A 1 2\nsite B 1 2\naddCoulombS A 2 -1\naddCoulombS B 2 -0.75\naddHopping4 A B 0.5\n"
+    fr = "0 0 0 1 -2 1 0 -1 0"
+    cmds = "ham\ngf 0 0 0 1 -1\ngf 0 2 0 1\nchi 0 1 0 1 0 3 %s\nchi 0 2 0 2 0 3 %s\nc2 1 0 2 0 1 0 1 0 3 0 3 3 %s\n" % (fr, fr, fr)
+    for beta, kw, eps in ([(100, "truncv", "1e-20"), (30, "trunc", "1e-6")] if quick else
+                          [(100, "truncv", "1e-20"), (30, "trunc", "1e-6"), (30, "truncv", "1e-6"), (10, "truncv", "1e-4"), (100, "trunc", "1e-12")]):
+        model = base + "beta %s\n%s %s\n" % (beta, kw, eps)
+        rc, ranks, err = C06.launch(h, 1, cmds, threads=1, timeout=180, model=model)
+        ref = C06.parse(ranks[0])
+        if rc != 0 or not ref["done"]:
+            chk.tie_broken("h_c06 single-rank reference (C19 distributed slice)", "rc=%s %s" % (rc, err))
+            continue
+        for P in ((2, 3) if quick else (2, 3, 4)):
+            rc, ranks, err = C06.launch(h, P, cmds, threads=1, timeout=90, model=model)
+            chk.case("mpi trunc %s %s %s %d" % (beta, kw, eps, P), "distributed truncated run P=%d %s beta=%s" % (P, kw, beta), True, None)
+            if rc != 0:
+                # the single-rank run of this truncated model finished: try once more with a long timeout before concluding
+                rc, ranks, err = C06.launch(h, P, cmds, threads=1, timeout=300, model=model)
+            if rc != 0:
+                chk.violation("distributed-truncation %s P=%d does not finish" % (kw, P),
+                              "after truncateBlocks(%s%s) at beta = %s the distributed computation on %d ranks %s (twice; the single-rank run of the same "
+                              "truncated model finishes): ranks that truncate differently build different part lists and their collective calls no longer match"
+                              % (eps, "" if kw == "truncv" else ", false", beta, P, "does not terminate within 300 s" if rc == 124 else "fails with exit code %s: %s" % (rc, err[-200:])),
+                              {"harness": "h_c06", "P": P, "model": model, "commands": cmds, "threads": 1, "rc": rc})
+                continue
+            for r in sorted(ranks):
+                o = C06.parse(ranks[r])
+                bad = None
+                for k in ref["g"]:
+                    if not C06.close(o["g"].get(k, []), ref["g"][k]):
+                        bad = "G_%s%s" % k
+                for k in ref["chieval"]:
+                    if not C06.close(o["chieval"].get(k, []), ref["chieval"][k]):
+                        bad = "chi_%s evaluated from its terms" % "".join(k)
+                for k in ref["eval"]:
+                    if not C06.close(o["eval"].get(k, []), ref["eval"][k]):
+                        bad = "container element %s" % "".join(k)
+                if r == 0:
+                    for k in ref["chitable"]:
+                        if not C06.close(o["chitable"].get(k, []), ref["chitable"][k]):
+                            bad = "returned table of chi_%s" % "".join(k)
+                if bad:
+                    chk.violation("distributed-truncation %s P=%d" % (kw, P),
+                                  "after truncateBlocks(%s%s) at beta = %s, on %d ranks rank %d obtains a %s that differs from the single-rank run of the same truncated model"
+                                  % (eps, "" if kw == "truncv" else ", false", beta, P, r, bad),
+                                  {"harness": "h_c06", "P": P, "model": model, "commands": cmds, "threads": 1})
+                    break
+
+
 def run(chk):
     quick = chk.tier == "quick"
     ok, log = chk.prove(["extract/Extract_C09.vo", "extract/Extract_ED.vo", "theories/ThermalExamples.vo"],
@@ -542,6 +598,7 @@ def run(chk):
         judge(job, rb, rt, model, info)
     for job, rb, rt, model in results:
         judge(job, rb, rt, model)
+    distributed_slice(chk, quick)
     chk.rule = ("one random instance per family of tools/scen.py (9 families; 3 in the thorough tier) at beta in {1, 10, 100}, each run untruncated and with "
                 "trunc eps for eps in {0, 1e-12, 1e-8, 1e-4, 1e-2}; per run G at 4 Matsubara and 3 complex off-axis points and <c^+_i c_j> for a sample of "
                 "index pairs (all pairs for 2 modes and in the thorough tier), 1-5 susceptibilities at 4 bosonic frequencies, 1-4 two-particle Green's "
